@@ -114,6 +114,18 @@ impl Driver for D {
                 self.check(ctx, i, "add");
                 vec!["unit".into()]
             }
+            "fill" => {
+                // n pseudo-random 64-bit hashes from a splitmix stream (statistical accuracy search)
+                let n: u64 = p(&op[2]);
+                let mut z: u64 = p(&op[3]);
+                let inst = self.v[i].as_mut().unwrap();
+                for _ in 0..n {
+                    z = z.wrapping_add(0x9E3779B97F4A7C15);
+                    inst.f.add_hashed(crate::rec::splitmix(z));
+                }
+                inst.hashes = None;
+                vec!["unit".into()]
+            }
             "merge" => {
                 let j: usize = p(&op[2]);
                 let other = self.v[j].as_ref().unwrap().clone();
@@ -151,7 +163,20 @@ impl Driver for D {
                 vec!["unit".into()]
             }
             "regs" => regs_tokens(self.v[i].as_ref().unwrap().f.registers()),
-            "count" => vec![self.v[i].as_ref().unwrap().f.count().to_string()],
+            "count" => {
+                let inst = self.v[i].as_ref().unwrap();
+                let c = inst.f.count();
+                if inst.f.registers().iter().all(|r| *r == 0) && c != 0 {
+                    ctx.fail("C03", format!("empty sketch counts {} (b={})", c, inst.f.b()));
+                }
+                if let Some(d) = ctx.cfg.get("distinct") {
+                    let d: i64 = p(d);
+                    if inst.f.b() >= 9 && d <= 8 && (c as i64 - d).abs() > 2 {
+                        ctx.fail("C03", format!("{} distinct elements counted as {} (b={})", d, c, inst.f.b()));
+                    }
+                }
+                vec![c.to_string()]
+            }
             "empty" => vec![(self.v[i].as_ref().unwrap().f.is_empty() as u8).to_string()],
             "relerr" => vec![self.v[i].as_ref().unwrap().f.relative_error().to_bits().to_string()],
             _ => panic!("hll: unknown op {:?}", op),
